@@ -240,6 +240,7 @@ class Run:
         self._wl0 = 0
         self._ev0 = 0
         self.on_stop_runlogs: list = []
+        self.on_stop_failure_nodes: dict = {}
         self._hook_on_stop()
         self._hook_error_state()
         if method is not None:
@@ -271,6 +272,7 @@ class Run:
                 run.on_stop_runlogs.append((run.tickno, run.runlog_items()))
             except Exception as ex:  # recorded; C15 reports it
                 run.on_stop_runlogs.append((run.tickno, f"ERR:{type(ex).__name__}:{run.diagnose_runlog_failure()}"))
+                run.on_stop_failure_nodes[run.tickno] = run.last_runlog_failure_node
             return orig()
         emitter.emit_on_stop = emit_on_stop
 
@@ -378,10 +380,12 @@ class Run:
     def diagnose_runlog_failure(self) -> str:
         """Which record breaks get_runlog(): '<instruction>:<states from the first concluding one on>'."""
         rt = self.engine.tracking.runtimeinfo
+        self.last_runlog_failure_node = None
         for r in rt.records_filtered:
             try:
                 rt._get_record_runlog_items(r)
             except BaseException:
+                self.last_runlog_failure_node = r.node_id
                 for states in rt._split_states_by_instance_id(r):
                     names = [str(st.state_name).split(".")[-1].lower() for st in states]
                     for i, n in enumerate(names):
